@@ -324,7 +324,17 @@ func export(m modeling.Mesh, format string) {
 	case "ply-be":
 		_ = ply.Write(out, m, ply.BinaryBigEndian)
 	case "obj":
-		_ = obj.WriteMesh(m, "", out)
+		// every public writer entry point of the format: geometry with and without a material library
+		// reference, the material library itself, and a list that holds the mesh twice
+		try := func(f func()) {
+			defer func() { recover() }()
+			f()
+		}
+		try(func() { _ = obj.WriteMesh(m, "", out) })
+		try(func() { _ = obj.WriteMesh(m, "x.mtl", out) })
+		try(func() { _ = obj.WriteMaterialsFromMesh(m, out) })
+		try(func() { _ = obj.WriteMaterials(m.Materials(), out) })
+		try(func() { _ = obj.WriteMeshes([]obj.ObjMesh{{Name: "a", Mesh: m}, {Name: "b", Mesh: m}}, "x.mtl", out) })
 	case "stl":
 		_ = stl.WriteMesh(out, m)
 	case "glb":
